@@ -1,5 +1,6 @@
-(* C07 — property theorems only.  M = coq/C07/Model.v (transcription of slip's Go code), S = coq/C07/Spec.v
-   (reference evaluator), guard = the syntactic region where slip's body loops deliver every exit. *)
+(* C07 — property theorems only.  M = coq/C07/Model.v (transcription of slip's Go code after repo_fixes/C07-1
+   .. C07-21), S = coq/C07/Spec.v (reference evaluator), guard = lexically scoped programs (what it excludes is
+   slip's dynamic lookup of blocks and tags). *)
 From C07 Require Import Model Spec Frame Refine Contexts Corr Proofs.
 
 (* (1) Cleanups exactly once, innermost first; mutexes and streams released on every path -- for the model
@@ -9,8 +10,8 @@ From C07 Require Import Model Spec Frame Refine Contexts Corr Proofs.
    stack discipline: each cleanup that starts belongs to the innermost protected form still open, none is
    left open (lifo), every protected form that was entered has had its cleanup started exactly once
    (cnt_enter = cnt_cleanup for each unwind-protect), and the set of held mutexes and the count of open
-   streams are what they were before the form.  This is where Go's defer in unwind-protect.go,
-   with-mutex-lock.go and with-open-file.go is right even though exits are mishandled elsewhere. *)
+   streams are what they were before the form.  This rests on Go's defer in unwind-protect.go,
+   with-mutex-lock.go and with-open-file.go and holds outside the guard as well. *)
 Theorem C07_impl_cleanups_once_lifo_resources_released : forall defs fuel sc tb f st r st',
   meval defs fuel sc tb f st = (r, st') -> r <> MHang -> r <> MOOF ->
   trace_law st st' /\ locks st' = locks st /\ files st' = files st.
@@ -26,14 +27,15 @@ Print Assumptions C07_ref_cleanups_once_lifo_resources_released.
 
 (* (3) unwind-protect in the model of the Go code, whatever the protected form does (r1 ranges over values,
    exit markers and panics): the cleanup forms are evaluated once, from the state the protected form left,
-   before anything else; the form then yields r1 again (the exit / error continues outward) unless the
-   cleanup itself fails. *)
+   before anything else; the form then yields r1 again (the exit / error continues outward) unless a
+   cleanup form itself exits (then that exit replaces what was in flight, as in the reference; this is
+   repo_fixes/C07-20), fails or hangs. *)
 Theorem C07_impl_cleanup_runs_whatever_the_outcome : forall defs n sc tb u p cs st r st',
   meval defs (S n) sc tb (UnwindProtect u p cs) st = (r, st') -> r <> MHang -> r <> MOOF ->
   exists r1 st1 r2,
     meval defs n sc tb p (log (EEnter u) st) = (r1, st1) /\
-    m_seq (meval defs n sc tb) never cs VNil (log (ECleanup u) st1) = (r2, st') /\
-    r = match r2 with MVal _ => r1 | _ => r2 end.
+    m_seq (meval defs n sc tb) cs VNil (log (ECleanup u) st1) = (r2, st') /\
+    r = match r2 with MVal v => if is_marker v then r2 else r1 | _ => r2 end.
 Proof. exact M_cleanup_whatever_outcome. Qed.
 Print Assumptions C07_impl_cleanup_runs_whatever_the_outcome.
 
@@ -41,7 +43,12 @@ Print Assumptions C07_impl_cleanup_runs_whatever_the_outcome.
    initial state and every fuel on which the reference terminates, the model of the Go code produces the
    corresponding result (the value; the same error class) and the SAME final state: the whole trace
    including every cleanup, the counters, the held mutexes, the open streams.  No exit marker leaks out of
-   a guarded program.  (Primary values only: the second value of ignore-errors is dropped by norm_res.) *)
+   a guarded program.  (Primary values only: the second value of ignore-errors is dropped by norm_res.)
+   Since repo_fixes/C07-1 .. C07-21 the guard only asks that the program is lexically scoped: every
+   return-from / return names a block written around it in the same function (or lambda) body, every go a
+   tag of a tagbody / loop body written around it.  Exits may stand in ANY position: first, middle or last
+   form of any body, argument, let init, test, value form of return-from, cleanup form, result form, clause
+   without forms; go may jump backward, to symbol tags, out of inner tagbodies and loops. *)
 Theorem C07_impl_eq_ref : forall p fuel st o st',
   guard p = true -> srun fuel p st = (o, st') -> o <> OOF ->
   exists r, mrun fuel p st = (r, st') /\ norm_res r = to_mres o /\
@@ -49,8 +56,16 @@ Theorem C07_impl_eq_ref : forall p fuel st o st',
 Proof. exact impl_eq_ref. Qed.
 Print Assumptions C07_impl_eq_ref.
 
-(* (5) Exits travel through arbitrary nestings (reference).  E is any list of frames -- progn, when, let,
-   argument position, block, unwind-protect, ignore-errors, recover, with-mutex-lock, with-open-file,
+(* (4') the guard is closed under contexts: plugging a lexically scoped form into any nesting of the
+   sixteen frame kinds whose side forms are lexically scoped gives a lexically scoped form.  (Before the
+   repairs no frame but let / block / unwind-protect / the last position of a body admitted an exit.) *)
+Theorem C07_guard_closed_under_contexts : forall E R G x, side_ok E R G = true -> compound x = true ->
+  gd (bl_in E R) (tg_in E G) x = true -> gd R G (plug E x) = true.
+Proof. exact gd_plug. Qed.
+Print Assumptions C07_guard_closed_under_contexts.
+
+(* (5) Exits travel through arbitrary nestings (reference).  E is any list of frames -- progn, when, unless,
+   if, let, argument position, block, unwind-protect, ignore-errors, recover, with-mutex-lock, with-open-file,
    lambda call, tagbody, dolist/dotimes, do -- none of which is the target of the exit or a handler for it
    (transp).  An exit raised in the hole comes out of E unchanged, and the state is exactly: what entering
    the frames did, then `leave`: for each frame from the innermost to the outermost, its cleanup forms /
@@ -87,6 +102,20 @@ Theorem C07_impl_return_from_reaches_its_block : forall defs E t v pre post st f
 Proof. exact M_return_reaches_block. Qed.
 Print Assumptions C07_impl_return_from_reaches_its_block.
 
+(* (6'') ... and with the guard discharged: in the model of the Go code a return-from crosses ANY context E
+   of the sixteen frame kinds (hole at any position) to its block, which yields the value, having run
+   exactly the cleanups of E innermost first and nothing after the exit; the only hypotheses left are that
+   the forms standing next to the hole, the rest of the block and the user functions are lexically scoped,
+   that no frame of E is a block of the same name / a nil-block loop for (return) (transp: otherwise that
+   frame is the target), and that no mutex frame of E relocks a held mutex (enterable). *)
+Theorem C07_impl_return_from_crosses_any_context : forall defs E t v pre post st fuel,
+  gd_defs 0 defs = true -> side_ok E [t] [] = true -> g_all gd [t] [] post = true ->
+  transp E (Ret t (VInt v)) = true -> enterable E (logtrs pre st) ->
+  mrun (S (length E + S (S fuel))) (defs, Block t (trs pre ++ plug E (ReturnFrom t (Const (LInt v))) :: post)) st
+  = (MVal (VInt v), leave E (enter E (logtrs pre st))).
+Proof. exact M_return_through_any_context. Qed.
+Print Assumptions C07_impl_return_from_crosses_any_context.
+
 (* (7) go reaches the matching tag: the tagbody continues with the statements after the tag (the
    right-hand side is the evaluation of `rest`), the statements in between are skipped, the cleanups of
    the frames in between have run. *)
@@ -99,8 +128,34 @@ Theorem C07_go_reaches_its_tag : forall defs E t pre mid rest bl tg st fuel,
 Proof. exact go_reaches_tag. Qed.
 Print Assumptions C07_go_reaches_its_tag.
 
+(* (7') the same for the model of the Go code inside the guard: whatever the reference makes of the
+   statements after the tag, the model makes the same of them, in the same final state *)
+Theorem C07_impl_go_reaches_its_tag : forall defs E t pre mid rest st fuel o st',
+  let items := tri pre ++ IForm (plug E (Go t)) :: mid ++ ITag t :: rest in
+  guard (defs, Tagbody items) = true ->
+  transp E (Goto t) = true -> enterable E (logtrs pre st) -> memN t (tags_of mid) = false ->
+  s_tagbody (seval defs (length E + S fuel) [] (tags_of items ++ [])) items (length E + fuel) rest
+            (leave E (enter E (logtrs pre st))) = (o, st') -> o <> OOF ->
+  exists r, mrun (S (length E + S fuel)) (defs, Tagbody items) st = (r, st') /\ norm_res r = to_mres o.
+Proof. exact M_go_reaches_tag. Qed.
+Print Assumptions C07_impl_go_reaches_its_tag.
+
+(* (7'') ... and in closed form, the guard discharged: in the model of the Go code a go crosses any context
+   E (inner tagbodies, loops, function calls, unwind-protects ... that do not have the tag) to its tag,
+   the statements between are skipped, the cleanups of E run innermost first, the markers after the tag
+   run, the tagbody yields nil. *)
+Theorem C07_impl_go_crosses_any_context : forall defs E t pre mid post st fuel,
+  let items := tri pre ++ IForm (plug E (Go t)) :: mid ++ ITag t :: tri post in
+  gd_defs 0 defs = true -> side_ok E [] (tags_of mid ++ [t]) = true ->
+  g_items gd [] (tags_of mid ++ [t]) mid = true ->
+  transp E (Goto t) = true -> enterable E (logtrs pre st) -> memN t (tags_of mid) = false ->
+  mrun (S (length E + S fuel)) (defs, Tagbody items) st
+  = (MVal VNil, logtrs post (leave E (enter E (logtrs pre st)))).
+Proof. exact M_go_through_any_context. Qed.
+Print Assumptions C07_impl_go_crosses_any_context.
+
 (* (8) an error no frame handles surfaces with its original class, after exactly the cleanups on its way;
-   reference, and model of the Go code inside the guard *)
+   reference, model of the Go code inside the guard, and the latter with the guard discharged *)
 Theorem C07_error_class_preserved : forall defs E c bl tg st fuel,
   transp E (Err c) = true -> enterable E st ->
   seval defs (length E + S fuel) bl tg (plug E (Signal c)) st = (Err c, leave E (enter E st)).
@@ -111,9 +166,16 @@ Theorem C07_impl_error_class_preserved : forall defs E c st fuel,
   mrun (length E + S fuel) (defs, plug E (Signal c)) st = (MErr c, leave E (enter E st)).
 Proof. exact M_error_class_preserved. Qed.
 Print Assumptions C07_impl_error_class_preserved.
+Theorem C07_impl_error_crosses_any_context : forall defs E c st fuel,
+  gd_defs 0 defs = true -> side_ok E [] [] = true -> transp E (Err c) = true -> enterable E st ->
+  mrun (length E + S fuel) (defs, plug E (Signal c)) st = (MErr c, leave E (enter E st)).
+Proof. exact M_error_through_any_context. Qed.
+Print Assumptions C07_impl_error_crosses_any_context.
 
-(* (9) non-vacuity: a five-level program with a user function inside the guard, its value and trace; a
-   nine-frame context satisfying the hypotheses of (5)-(8) for a return, a go and an error. *)
+(* (9) non-vacuity: a five-level program with a user function inside the guard, the exit in the middle of
+   a when body, its value and trace; a seventeen-frame context containing every frame kind, with forms after
+   the hole in every body, satisfying the hypotheses of (5)-(8) for a return and a go (and, cut before its
+   handlers, for an error). *)
 Theorem C07_guard_nonvacuous :
   guard ex_prog = true /\
   fst (mrun 60 ex_prog st0) = MVal (VInt 4) /\ fst (srun 60 ex_prog st0) = Normal (VInt 4) /\
@@ -123,66 +185,44 @@ Theorem C07_guard_nonvacuous :
 Proof. exact ex_prog_in_guard. Qed.
 Print Assumptions C07_guard_nonvacuous.
 Theorem C07_context_nonvacuous :
-  transp E_ex (Ret 1%N (VInt 5)) = true /\ transp E_ex (Goto 7%N) = true /\ transp E_ex (Err CDivZero) = true /\
+  transp E_ex (Ret 1%N (VInt 5)) = true /\ transp E_ex (Goto 7%N) = true /\ transp E_ex (Err CDivZero) = false /\
+  transp (firstn 12 E_ex) (Err CDivZero) = true /\
+  side_ok E_ex [1%N] [] = true /\ side_ok E_ex [] [7%N] = true /\
   enterable E_ex st0 /\
   trace (leave E_ex (enter E_ex st0)) =
-    [EEnter 1; ETr 11 1 0; ETr 12 1 0; ETr 13 1 0; EEnter 2; ETr 14 1 8; ECleanup 2; ETr 20 1 8; ECleanup 1; ETr 10 0 0]%N.
+    [EEnter 1; ETr 11 1 0; ETr 12 1 0; ETr 13 1 0; EEnter 2; ETr 14 1 8; ETr 15 1 8; ECleanup 2; ETr 20 1 8; ECleanup 1; ETr 10 0 0]%N.
 Proof. exact E_ex_ok. Qed.
 Print Assumptions C07_context_nonvacuous.
 
-(* (10) Where the faithful model violates the reference (each is a known finding replayed on the Go code on
-   every run, and a clause of the guard): the exit is dropped by the body loops of when / cond / progn /
-   ignore-errors / recover / with-mutex-lock / with-open-file ... *)
-Theorem C07_body_swallows_exit_refuted :
-  forallb (fun w => negb (guard (w_body w))) body_wrappers = true /\
-  map (fun w => run_m (w_body w) []) body_wrappers = repeat (MVal (VInt 2), [(7, 0, 0)]%N, []) 5 ++
-     [(MVal (VInt 2), [(7, 1, 0)]%N, []); (MVal (VInt 2), [(7, 0, 1)]%N, [])] /\
-  map (fun w => run_s (w_body w) []) body_wrappers = repeat (Normal (VInt 1), [], []) 7.
-Proof. exact body_swallows_exit_refuted. Qed.
-Print Assumptions C07_body_swallows_exit_refuted.
-(* ... an exit in an argument, a let init form or a test is captured as a value ... *)
-Theorem C07_argument_captures_exit_refuted :
-  guard w_arg = false /\ guard w_letinit = false /\ guard w_test = false /\
-  fst (mrun 60 w_arg st0) = MVal (VList [VInt 1; VRetM 1%N (VInt 5); VInt 3]) /\ fst (srun 60 w_arg st0) = Normal (VInt 5) /\
-  fst (mrun 60 w_letinit st0) = MVal (VInt 3) /\ fst (srun 60 w_letinit st0) = Normal (VInt 1) /\
-  fst (mrun 60 w_test st0) = MVal (VInt 2) /\ fst (srun 60 w_test st0) = Normal (VInt 1).
-Proof. exact argument_captures_exit_refuted. Qed.
-Print Assumptions C07_argument_captures_exit_refuted.
-(* ... tagbody drops return markers, evaluates symbol tags, cannot go backward or to an outer tagbody ... *)
-Theorem C07_tagbody_refuted :
-  guard w_tagbody_ret = false /\ guard w_symtag = false /\ guard w_backward = false /\ guard w_outer_go = false /\
-  fst (mrun 60 w_tagbody_ret st0) = MVal (VInt 2) /\ fst (srun 60 w_tagbody_ret st0) = Normal (VInt 1) /\
-  run_m w_symtag [0%Z] = (MErr CUnbound, [], [0%Z]) /\ run_s w_symtag [0%Z] = (Normal VNil, [], [3%Z]) /\
-  run_m w_backward [0%Z] = (MVal VNil, [], [1%Z]) /\ run_s w_backward [0%Z] = (Normal VNil, [], [3%Z]) /\
-  run_m w_outer_go [0%Z] = (MVal VNil, [], [1%Z]) /\ run_s w_outer_go [0%Z] = (Normal VNil, [], [0%Z]).
-Proof. exact tagbody_refuted. Qed.
-Print Assumptions C07_tagbody_refuted.
-(* ... the loops swallow a go to an outer tag, let a return in the result form escape, and do forwards a
-   named return only when called from a block scope ... *)
-Theorem C07_loops_refuted :
-  guard w_loop_go = false /\ guard w_loop_res = false /\ guard w_do = false /\
-  run_m w_loop_go [0%Z] = (MVal VNil, [], [1%Z]) /\ run_s w_loop_go [0%Z] = (Normal VNil, [], [0%Z]) /\
-  fst (mrun 60 w_loop_res st0) = MVal (VInt 8) /\ fst (srun 60 w_loop_res st0) = Normal (VInt 5) /\
-  fst (mrun 60 w_do st0) = MVal (VInt 9) /\ fst (srun 60 w_do st0) = Normal (VInt 1).
-Proof. exact loops_refuted. Qed.
-Print Assumptions C07_loops_refuted.
-(* ... function bodies and blocks hand a go marker on only from their last form ... *)
-Theorem C07_go_not_forwarded_refuted :
-  guard w_lam_go = false /\ guard w_block_go = false /\
-  run_m w_lam_go [0%Z] = (MVal VNil, [], [1%Z]) /\ run_s w_lam_go [0%Z] = (Normal VNil, [], [0%Z]) /\
-  run_m w_block_go [0%Z] = (MVal VNil, [], [1%Z]) /\ run_s w_block_go [0%Z] = (Normal VNil, [], [0%Z]).
-Proof. exact go_not_forwarded_refuted. Qed.
-Print Assumptions C07_go_not_forwarded_refuted.
-(* ... an exit out of a cleanup is dropped; blocks are found dynamically; the two-valued result of
-   ignore-errors counted as true until repo_fixes/C01-19 (when / cond now test the first value: w_mv is inside the guard
-   and M = S on it); a marker can become the value of a return-from; (cond (x)) yields nil. *)
-Theorem C07_other_refuted :
-  guard w_cleanup = false /\ guard w_dyn = false /\ guard w_mv = true /\ guard w_nested = false /\
-  guard w_cond_nobody = false /\
-  fst (mrun 60 w_cleanup st0) = MVal (VInt 3) /\ fst (srun 60 w_cleanup st0) = Normal (VInt 2) /\
+(* (10) The witnesses of the 24 repaired findings (exit dropped by when / cond / progn / ignore-errors /
+   recover / with-mutex-lock / with-open-file; exit captured by an argument, a let init, a test; tagbody
+   dropping a return, evaluating a symbol tag, no backward go, no go to an outer tag; loops swallowing a
+   go, letting a return in the result form escape, do dropping a named return and exits in its result
+   forms; function body and block dropping a go; exit out of a cleanup form, also over an error in flight;
+   two-valued test; marker as return value; cond clause without forms) are all inside the guard now, and
+   on each the model of the Go code yields what the reference yields (the listed values). *)
+Theorem C07_repaired_witnesses_agree :
+  forallb guard repaired = true /\
+  map (fun p => run_m p [0%Z]) repaired =
+    repeat (MVal (VInt 1), [], [0%Z]) 7 ++
+    [(MVal (VInt 5), [], [0%Z]); (MVal (VInt 1), [], [0%Z]); (MVal (VInt 1), [], [0%Z]); (MVal (VInt 1), [], [0%Z]);
+     (MVal VNil, [], [3%Z]); (MVal VNil, [], [3%Z]); (MVal VNil, [], [0%Z]); (MVal VNil, [], [0%Z]);
+     (MVal (VInt 5), [(1, 0, 0); (1, 0, 0); (1, 0, 0)]%N, [0%Z]); (MVal (VInt 1), [], [0%Z]); (MVal (VInt 1), [], [0%Z]);
+     (MVal VNil, [], [0%Z]); (MVal VNil, [], [0%Z]); (MVal (VInt 2), [], [0%Z]); (MVal (VInt 2), [], [0%Z]);
+     (MVal VNil, [], [0%Z]); (MVal (VInt 3), [], [0%Z]); (MVal (VInt 5), [], [0%Z])] /\
+  map (fun p => let '(r, tr, vs) := run_m p [0%Z] in (norm_res r, tr, vs)) repaired =
+  map (fun p => let '(o, tr, vs) := run_s p [0%Z] in (to_mres o, tr, vs)) repaired.
+Proof. exact repaired_witnesses_agree. Qed.
+Print Assumptions C07_repaired_witnesses_agree.
+
+(* (11) Where the faithful model still violates the reference (each a known finding replayed on the Go code
+   on every run, and what the guard excludes): blocks and tags are looked up dynamically.  A function can
+   return from a block of its caller; a function called inside a tagbody can go to a tag of its caller;
+   a go to a tag that no tagbody has is not an error, its marker leaves the tagbody as a value. *)
+Theorem C07_dynamic_lookup_refuted :
+  guard w_dyn = false /\ guard w_dyn_go = false /\ guard w_go_unknown = false /\
   fst (mrun 60 w_dyn st0) = MVal (VInt 3) /\ fst (srun 60 w_dyn st0) = Err CControl /\
-  fst (mrun 60 w_mv st0) = MVal VNil /\ fst (srun 60 w_mv st0) = Normal VNil /\
-  fst (mrun 60 w_nested st0) = MVal (VRetM 2%N (VInt 1)) /\ fst (srun 60 w_nested st0) = Normal (VInt 3) /\
-  fst (mrun 60 w_cond_nobody st0) = MVal (VInt 5) /\ fst (srun 60 w_cond_nobody st0) = Normal (VInt 5).
-Proof. exact other_refuted. Qed.
-Print Assumptions C07_other_refuted.
+  run_m w_dyn_go [0%Z] = (MVal VNil, [], [0%Z]) /\ run_s w_dyn_go [0%Z] = (Err CControl, [], [0%Z]) /\
+  fst (mrun 60 w_go_unknown st0) = MVal (VGoM 45%N) /\ fst (srun 60 w_go_unknown st0) = Err CControl.
+Proof. exact dynamic_lookup_refuted. Qed.
+Print Assumptions C07_dynamic_lookup_refuted.
